@@ -14,15 +14,16 @@ THEOREMS = ['C17_' + t for t in (
     'retarder_rotation_covariant polarizer_H_kernel polarizer_V_kernel polarizer_L45_kernel polarizer_L135_kernel '
     'polarizer_RCP_kernel polarizer_LCP_kernel projector_onto_props diattenuator_diagonal_partial frames_orthonormal '
     'uncoated_surface_isometry uncoated_surface_transverse uncoated_trace_isometry polstate_init_normalised '
-    'launch_field_unit_transverse uncoated_trace_preserves_intensity unpolarized_is_mean trace_PP_chain').split()]
+    'launch_field_unit_transverse uncoated_trace_preserves_intensity unpolarized_is_mean trace_PP_chain '
+    'near_parallel_surface_bound uncoated_trace_intensity_bounds uncoated_trace_intensity_within').split()]
 TRUSTED_BASE = BASE_TRUSTED + [
     'translator extension tools/py2coq_cx.py (complex scalars / Nx3x3 complex matrices as pairs over Ops, coq/Num/Cx.v), '
     'validated on every run against each Jones*.calculate_matrix',
     'hand model coq/Model/M_C17.v of PolarizedRays.update/_get_3d_electric_field/update_intensity, PolarizationState, '
     'create_polarization (NumPy cross/stack/einsum glue), tied to the code by the correspondence checks of this module',
     'modelled, not verified: material.n(w) values are inputs (C18); launch intensity is 1 (RayGenerator uses np.ones_like)',
-    'the theorems are over exact reals: ill-conditioned float cases (nearly parallel k0,k1) are covered only by the '
-    'numerical oracle of this module (see finding near-parallel-frame)',
+    'the theorems are over exact reals; the fallback-frame threshold |k0 x k1| < 1e-8 of PolarizedRays.update is mirrored by '
+    'M_C17.par_tol (checked by unit cases just below/above it and by index-matched surfaces in the recorded traces)',
 ]
 RULE = ('kernels: index pairs in [1,4], aoi in [0,pi/2) incl. total internal reflection, both reflect flags, angles/retardances '
         'in [-2pi,2pi], unit and non-unit normals; model: random unit k0,k1 incl. parallel/antiparallel/axial/degenerate, '
@@ -31,8 +32,9 @@ RULE = ('kernels: index pairs in [1,4], aoi in [0,pi/2) incl. total internal ref
 PARTIAL = [
     'diattenuator: only the diagonal is proved to agree with R(theta) diag(t_max,t_min) R(-theta); the off-diagonal is refuted '
     '(Findings/F_C17.v, finding diattenuator-offdiag)',
-    'uncoated_trace_preserves_intensity assumes the per-surface update calls form a chain (k0 of surface i+1 = k1 of surface i) '
-    'and exact reals; both fail on the implementation for tilted surfaces / nearly parallel directions (two findings)',
+    'the trace theorems assume the per-surface update calls form a chain (k0 of surface i+1 = k1 of surface i); this fails on the '
+    'implementation for tilted surfaces (finding tilted-surface-frame).  Exact preservation (uncoated_trace_preserves_intensity) '
+    'needs |k0 x k1| >= 1e-8 or = 0 at every surface; for the gap uncoated_trace_intensity_within gives (1 -+ 1e-8)^n',
     'quarter/half-wave constructors (super().__init__(pi/2 | pi, theta)) are checked by correspondence, not translated',
 ]
 COQ_TARGETS = ['Model/M_C17.vo', 'Num/Cx.vo']
@@ -41,7 +43,8 @@ HERE = os.path.dirname(os.path.abspath(__file__))
 TOOLS = os.path.dirname(HERE)
 IMPL = os.path.join(TOOLS, 'c17_impl.py')
 INT_TOL = 1e-9          # oracle tolerance on intensities / transversality
-ILL = 1e-6              # |k0 x k1| below this (and non-zero): frame is numerically ill-conditioned
+ILL = 1e-6              # 0 < |k0 x k1| < ILL: the cross product carries a relative rounding error > 1e-10
+PAR_TOL = 1e-8          # threshold of PolarizedRays.update / M_C17.par_tol (fallback frame below it)
 
 
 def fh(x):
@@ -165,9 +168,15 @@ def classify(t):
         mag = math.sqrt(sum(x * x for x in c))
         if 0 < mag < ILL:
             near_par = True
+        if PAR_TOL * 0.999 <= mag < ILL:
+            # resolvable in exact arithmetic but not in binary64 to the comparison tolerance (or on the branch boundary)
+            t['_ill'] = True
         prev = s['k1']
     t['_chain_broken'], t['_near_par'] = chain_broken, near_par
-    cause = 'near-parallel' if near_par else ('tilted-frame' if (chain_broken and t['tilted']) else 'unknown')
+    # a tilt (calls no longer chained) explains a non-transverse field but nothing else; a near-parallel pair of
+    # directions (frame built from rounding noise) could explain loss of intensity and of transversality
+    cause = 'near-parallel' if near_par else 'unknown'
+    cause_t = 'tilted-frame' if (chain_broken and t['tilted']) else cause
     base = {'call': 'PolarizedRays.update', 'cause': cause, 'lens': t['lens'], 'ray': t['ray'], 'coated': t['coated'],
             'tilted': t['tilted'], 'spec': t['spec'], 'raw_state': t['raw'], 'violates_property': True}
     if not t['coated']:
@@ -175,12 +184,11 @@ def classify(t):
             out.append(dict(base, clause='uncoated-intensity', observed=t['ipol'], expected=1.0))
         if not t['Edotk'] <= INT_TOL:
             # a near-parallel frame also destroys transversality; a broken chain alone (tilt) only does the latter
-            c2 = cause if cause != 'unknown' else 'unknown'
-            out.append(dict(base, cause=c2, clause='field-transverse', observed=t['Edotk'], expected=0.0))
-    for a, b in (('H', 'V'), ('L+45', 'L-45'), ('RCP', 'LCP'), ('r1', 'r2')):
+            out.append(dict(base, cause=cause_t, clause='field-transverse', observed=t['Edotk'], expected=0.0))
+    for a, b in (('H', 'V'), ('L+45', 'L-45'), ('RCP', 'LCP'), ('r1', 'r2'), ('c1', 'c2')):
         mean = t['i0'] * (t['ints'][a] + t['ints'][b]) / 2
         if not abs(t['iunpol'] - mean) <= INT_TOL * (1 + abs(mean)):
-            out.append(dict(base, cause='unknown' if cause == 'tilted-frame' else cause, clause='unpolarized-mean',
+            out.append(dict(base, cause='unknown', clause='unpolarized-mean',
                             pair=[a, b], observed=t['iunpol'], expected=mean))
     return out
 
@@ -205,9 +213,21 @@ def system_checks(ctx):
         res['error'] = err
     for i in bad:
         c = data['update'][i]
-        # does the implementation's result violate the property?  (uncoated update must be an isometry)
         res['disagreements'].append({'case': {k: c[k] for k in ('kind', 'k0', 'k1')}, 'violates_property': False,
                                      'note': 'model and implementation disagree on the accumulated matrix'})
+    # the property itself on the same calls: an uncoated surface matrix is orthogonal and carries k0 to k1
+    seen = set()
+    for c in data['update']:
+        if c.get('orth_err') is not None and not c['orth_err'] <= 1e-7:
+            cr = [c['k0'][1] * c['k1'][2] - c['k0'][2] * c['k1'][1], c['k0'][2] * c['k1'][0] - c['k0'][0] * c['k1'][2],
+                  c['k0'][0] * c['k1'][1] - c['k0'][1] * c['k1'][0]]
+            mag = math.sqrt(sum(x * x for x in cr))
+            cause = 'near-parallel' if 0 < mag < ILL else 'unknown'
+            if (cause, c['kind']) not in seen:
+                seen.add((cause, c['kind']))
+                res['disagreements'].append({'call': 'PolarizedRays.update', 'cause': cause, 'clause': 'uncoated-intensity',
+                                             'kind': c['kind'], 'k0': c['k0'], 'k1': c['k1'], 'observed': c['orth_err'],
+                                             'expected': 0.0, 'violates_property': True})
     yield res
 
     # ---- launch field / intensities / PolarizationState ----
@@ -260,7 +280,11 @@ def system_checks(ctx):
             continue
         hist['coated' if t['coated'] else 'uncoated'] += 1
         hist['tilted'] += 1 if t['tilted'] else 0
+        if t.get('matched'):
+            hist['index-matched surface'] = hist.get('index-matched surface', 0) + 1
         if t['_near_par']:
+            hist['near-parallel surface'] = hist.get('near-parallel surface', 0) + 1
+        if t.get('_ill'):
             hist['ill-conditioned(not compared)'] += 1
             continue
         calls = '[' + '; '.join(f'({v3(s["k0"])}, {v3(s["k1"])}, ' + ('None' if s['J'] is None else f'Some {m3(s["J"])}') + ')'
